@@ -5,6 +5,13 @@ ROOT = os.path.dirname(os.path.dirname(os.path.abspath(__file__)))
 NOTES = {
     "C03-2B": "outside C03's statement (needs the caller to mutate the argument object after the call); it is C19's clause "
               "'recorded constraints independent of the argument' and C19 catches it",
+    "C06-3B": "a copy sharing its constraint lists is not observable through one logical-constraint call (C06's domain); "
+              "caught by C19 (copy independence) and C14 (copy_not_independent)",
+    "C08-3A": "needs the caller to mutate the constraint object after passing it; C19's clause, caught by C19",
+    "C14-3B": "set_mapping keeping the caller's dict: set_mapping is not one of C14's edits; it is C19's aliasing clause, caught by C19",
+    "C09-3A": "NOT caught, deliberately (same ambiguity as C09-2A): assigning 0 to a new label registers it as a reported "
+              "variable; bookkeeping stays a consistent upper bound (C14 holds) and the solver returns assignments over the "
+              "reported variables, which the unchanged library also does for models with cancelled terms",
     "C09-2A": "NOT caught, deliberately: for a Matrix model whose terms cancelled the change returns assignments over the "
               "*reported* variables instead of the variables in the keys; the labelled types of the unchanged library already "
               "do exactly that, so 'the model's variables' is not pinned for stale models and both readings are accepted",
